@@ -2364,3 +2364,133 @@ pub mod releasefx {
         }
     }
 }
+
+// ---------------------------------------------------------------- R-PADMASK
+#[cfg(target_arch = "x86_64")]
+pub mod padfx {
+    use std::arch::x86_64::*;
+    pub fn bad_find(key: u8, keys: &[u8; 8], len: usize) -> Option<usize> {
+        if len == 0 { return None; }
+        unsafe {
+            let mut scratch = [0u8; 8];
+            for i in 0..len.min(8) { scratch[i] = keys[i]; }
+            let v = _mm_loadl_epi64(scratch.as_ptr() as *const __m128i);
+            let m = _mm_movemask_epi8(_mm_cmpeq_epi8(_mm_set1_epi8(key as i8), v)) as u32;
+            if m != 0 { return Some(m.trailing_zeros() as usize); }
+        }
+        None
+    }
+    pub fn ok_find(key: u8, keys: &[u8; 8], len: usize) -> Option<usize> {
+        if len == 0 { return None; }
+        unsafe {
+            let mut scratch = [0u8; 8];
+            for i in 0..len.min(8) { scratch[i] = keys[i]; }
+            let v = _mm_loadl_epi64(scratch.as_ptr() as *const __m128i);
+            let m = (_mm_movemask_epi8(_mm_cmpeq_epi8(_mm_set1_epi8(key as i8), v)) as u32) & ((1u32 << len.min(8)) - 1);
+            if m != 0 { return Some(m.trailing_zeros() as usize); }
+        }
+        None
+    }
+}
+
+// ---------------------------------------------------------------- R-COMMIT through a deciding helper
+pub mod commit2 {
+    use super::*;
+    use std::sync::atomic::{AtomicUsize, AtomicU32, Ordering};
+    pub struct Mgr { pub readers: AtomicUsize, pub limit: usize, pub gen: AtomicU32 }
+    fn check_limit(live: usize, limit: usize) -> Result<()> {
+        if live > limit { return Err(ZiporaError("too many readers")); }
+        Ok(())
+    }
+    fn make_chunk(generation: u32, size: usize) -> Result<Vec<u8>> {
+        if size > (1 << 30) { return Err(ZiporaError("too large")); }
+        let mut v = vec![0u8; size];
+        if size > 0 { v[0] = generation as u8; }
+        Ok(v)
+    }
+    impl Mgr {
+        pub fn bad_acquire(&self) -> Result<usize> {
+            let live = self.readers.fetch_add(1, Ordering::AcqRel) + 1;
+            check_limit(live, self.limit)?;
+            Ok(live)
+        }
+        pub fn ok_acquire(&self) -> Result<usize> {
+            let live = self.readers.fetch_add(1, Ordering::AcqRel) + 1;
+            if let Err(e) = check_limit(live, self.limit) {
+                self.readers.fetch_sub(1, Ordering::AcqRel);
+                return Err(e);
+            }
+            Ok(live)
+        }
+        pub fn ok_fresh_id(&self, size: usize) -> Result<Vec<u8>> {
+            let generation = self.gen.fetch_add(1, Ordering::AcqRel);
+            let chunk = make_chunk(generation, size)?;
+            Ok(chunk)
+        }
+    }
+}
+
+// ---------------------------------------------------------------- R-FLATTEN
+pub mod flattenfx {
+    pub fn bad_join(rs: Vec<Result<u32, String>>) -> Result<Vec<u32>, String> {
+        Ok(rs.into_iter().flatten().collect())
+    }
+    pub fn ok_join(rs: Vec<Result<u32, String>>) -> Result<Vec<u32>, String> {
+        rs.into_iter().collect()
+    }
+    pub fn ok_flatten_options(xs: Vec<Vec<u32>>) -> Vec<u32> {
+        xs.into_iter().flatten().collect()
+    }
+}
+
+// ---------------------------------------------------------------- R-NARROWIDX
+pub mod nidxfx {
+    pub struct V32 { pub data: Vec<u64>, pub len: u32 }
+    impl V32 {
+        fn at32(&self, i: u32) -> &u64 { assert!(i < self.len); &self.data[i as usize] }
+        pub fn bad_index(&self, index: usize) -> &u64 { self.at32(index as u32) }
+        pub fn ok_index(&self, index: usize) -> &u64 {
+            assert!(index < self.len as usize);
+            self.at32(index as u32)
+        }
+    }
+}
+
+// ---------------------------------------------------------------- R-WRAP.pow2
+pub mod pow2fx {
+    pub struct OkRing { pub buf: Vec<u32>, pub head: usize, pub tail: usize, pub mask: usize }
+    impl OkRing {
+        pub fn new(cap: usize) -> OkRing {
+            let cap = cap.max(2).next_power_of_two();
+            OkRing { buf: vec![0; cap], head: 0, tail: 0, mask: cap - 1 }
+        }
+        pub fn push(&mut self, v: u32) { self.buf[self.tail] = v; self.tail = (self.tail + 1) & self.mask; }
+    }
+    pub struct BadRing<const N: usize> { pub buf: [u32; N], pub head: usize, pub tail: usize }
+    impl<const N: usize> BadRing<N> {
+        pub fn push(&mut self, v: u32) { self.buf[self.tail] = v; self.tail = (self.tail + 1) & (N - 1); }
+    }
+}
+
+// ---------------------------------------------------------------- R-PANICSAFE.len
+pub mod psfx {
+    pub struct RawVec { pub ptr: *mut String, pub len: usize, pub cap: usize }
+    impl RawVec {
+        pub fn ok_extend<I: Iterator<Item = String>>(&mut self, mut it: I) {
+            while self.len < self.cap {
+                let Some(v) = it.next() else { break };
+                unsafe { std::ptr::write(self.ptr.add(self.len), v) };
+                self.len += 1;
+            }
+        }
+        pub fn bad_extend<I: Iterator<Item = String>>(&mut self, mut it: I) {
+            let mut written = 0;
+            while self.len + written < self.cap {
+                let Some(v) = it.next() else { break };
+                unsafe { std::ptr::write(self.ptr.add(self.len + written), v) };
+                written += 1;
+            }
+            self.len += written;
+        }
+    }
+}
